@@ -134,6 +134,7 @@ class History:
         self.solution = None
         self.out_path = None
         self.faults_fired = []
+        self.guests_fired = []
         self.probes = {}
         self.fs_before = None
         self.fs_after = None
@@ -233,6 +234,13 @@ class Sim:
         self.options_as_is = None
         self.keep_output = False
         self.stub_state = {}
+        # schedule decisions "another simulation runs here": a second solve on the same Device object is
+        # executed to completion at a seam of the run under test (what a second caller thread, or a sweep
+        # driven from a callback, interleaves with it); not a fault - kept apart from self.faults
+        self.guests = [dict(g) for g in scn.get("guests", [])]
+        for g in self.guests:
+            g["_fired"] = False
+            g["_seen"] = 0
 
     # ----------------------------------------------------------------------------------
     def add_violation(self, v):
@@ -276,8 +284,89 @@ class Sim:
         self.h.ev("fault", f["kind"], tag)
         self.h.probe("fault:" + f["kind"])
 
+    def _guests_at(self, point, step):
+        for g in self.guests:
+            at = g["at"]
+            if g["_fired"] or at.get("point") != point or at.get("stage", "S") != self.stage:
+                continue
+            if at.get("step") is not None and at["step"] != step:
+                continue
+            g["_seen"] += 1
+            if g["_seen"] - 1 != at.get("nth", 0):
+                continue
+            g["_fired"] = True
+            self._run_guest(g, f"{point}@{self.stage}{step}")
+
+    def _run_guest(self, g, tag):
+        """Run another simulation on the same Device object, here, to completion, outside the simulator's
+        seams (real data handler, real temporary directory); what it does to itself is not judged - what it
+        does to the run under test is (online invariants, aliasing invariant, twin comparison)."""
+        import dataclasses as _dc
+
+        import tdgl
+
+        h = self.h
+        what = g.get("what", {})
+        h.ev("guest", tag, what.get("mode", "same"))
+        h.probe("guest:" + g["at"]["point"])
+        h.guests_fired.append({"at": dict(g["at"]), "what": dict(what), "tag": tag, "in_update": self.cur is not None})
+        names = ("DataHandler", "Runner", "h5py", "tempfile", "subprocess", "input")
+        swapped = []
+        for obj, name, old, had in self._patches:
+            if name in names and had:
+                swapped.append((obj, name, getattr(obj, name)))
+                setattr(obj, name, old)
+        old_trace = sys.gettrace()
+        sys.settrace(None)
+        was_oracle = self._in_oracle
+        self._in_oracle = True
+        try:
+            solver = None
+            if what.get("mode") == "sibling" and getattr(self, "sibling", None) is not None:
+                solver = self.sibling
+            else:
+                main = h.solver
+                opts = _dc.replace(main.options, output_file=None)
+                opts.solve_time = float(opts.dt_init) * int(what.get("steps", 2))
+                opts.skip_time = 0.0
+                opts.progress_interval = 1000000
+                opts.monitor = False
+                opts.pause_on_interrupt = False
+                if what.get("save_every"):
+                    opts.save_every = int(what["save_every"])
+                if "screening" in what:
+                    opts.include_screening = bool(what["screening"])
+                if opts.include_screening:
+                    opts.max_iterations_per_step = min(int(opts.max_iterations_per_step), 300)
+                if what.get("terminal_psi", "same") != "same":
+                    opts.terminal_psi = what["terminal_psi"]
+                drive = self.scn["drive"]
+                if what.get("field", "shared") == "shared":
+                    field = self.A_obj  # the very object the run under test evaluates (Parameter caches included)
+                else:
+                    field, _ = B.build_field(what["field"], h.ctx)
+                solver = tdgl.TDGLSolver(
+                    h.device,
+                    opts,
+                    applied_vector_potential=field,
+                    terminal_currents=B.build_currents(drive.get("currents")),
+                    disorder_epsilon=B.build_epsilon(drive.get("epsilon")),
+                )
+            try:
+                solver.solve()
+                h.probe("guest_completed")
+            except (RuntimeError, ValueError, FloatingPointError) as e:
+                h.probe("guest_failed:" + type(e).__name__)  # a guest that does not converge is history too
+        finally:
+            self._in_oracle = was_oracle
+            for obj, name, val in swapped:
+                setattr(obj, name, val)
+            sys.settrace(old_trace)
+
     def fault_at(self, point, step=None):
         """Boundary fault points: raise the scheduled payload if one matches."""
+        if self.guests and not self._in_oracle:
+            self._guests_at(point, step)
         for f in self.faults:
             if f["_fired"] or f["kind"] not in ("exc", "sigint", "enospc", "mem"):
                 continue
@@ -577,6 +666,7 @@ class Sim:
                 "kw": kw,
                 "injected": False,
             }
+            sim.fault_at("attempt", step)
             if sim.refuse_now(step, cur["attempts_this_iter"] if cur is not None else 0):
                 rec["injected"] = True
                 rec["result"] = None
@@ -600,6 +690,7 @@ class Sim:
                 "current_density": np.array(current_density, copy=True),
                 "A_prev": np.array(A_induced_vals[-1], copy=True),
             }
+            sim.fault_at("screen", rec["step"])
             A, err = real_giv(current_density, A_induced_vals, velocity)
             rec["A_new"] = np.array(A, copy=True)
             rec["kernel_out"] = np.array(solver.new_A_induced, copy=True)
